@@ -38,8 +38,18 @@ def _valid_name(n):
     return n not in ("", ".", "..") and "/" not in n and "\0" not in n and len(b) <= 255
 
 
+def _canon(n):
+    """the str a real argv / readdir would give for these bytes (adjacent escaped bytes that
+    happen to form valid UTF-8 become the character, not two lone surrogates)"""
+    return n.encode("utf-8", "surrogateescape").decode("utf-8", "surrogateescape")
+
+
+def names(raw=False, long_ok=True, simple=False):
+    return _names(raw, long_ok, simple).map(_canon)
+
+
 @st.composite
-def names(draw, raw=False, long_ok=True, simple=False):
+def _names(draw, raw=False, long_ok=True, simple=False):
     if simple:
         return draw(st.text(alphabet="abcdefgh", min_size=1, max_size=5))
     mode = draw(st.integers(0, 19))
